@@ -165,6 +165,37 @@ def run(run):
     run.count("library_run_statements", n_int)
     run.states += n_int
     run.transitions += n_int
+    # the interfaces as they are *emitted* (the bundler rewrites string declarations): for every requested string size the bundled
+    # copy of each procedure must declare the same parameters (names, order, kinds, dimensions) as the library text
+    big = "10 HSCREEN 2:HPRINT(1,2),\"X\":HDRAW \"U1\":PLAY \"C\":A$=STRING$(2,\"X\")+HEX$(1)+STR$(2):A=INSTR(1,A$,\"X\")+VAL(A$)+INT(1.5)\n20 HLINE(1,2)-(3,4),PSET,B:HBUFF 1,10:HGET(0,0)-(1,1),1:HPUT(0,0)-(1,1),1,PSET:INPUT B$:READ C:LOCATE 1,1:ATTR 1,2\n30 DATA 1,,3\n"
+    for size in (32, 33, 80, 128, 255):
+        r = tool.convert(big, output_dependencies=True, procname="p", default_str_storage=size)
+        run.states += 1
+        run.transitions += 1
+        run.evaluations += 1
+        if not r.ok:
+            continue
+        try:
+            bprocs = S.parse(r.text)
+        except S.B09SyntaxError as e:
+            run.violation("bundled-interface-malformed", {"bundle", "storage:%d" % size}, {"bundle": size}, f"default_str_storage={size}: the bundle does not parse: {e}")
+            continue
+        for bp in bprocs:
+            lp = lib["procs"].get(bp.name.lower())
+            if lp is None:
+                continue
+
+            def sig(p):
+                out = []
+                for st in S.walk(p.body):
+                    if st.kind == "param":
+                        for grp, typ in st.a["groups"]:
+                            for nm, dims in grp:
+                                out.append((nm.lower(), (typ[0] if typ else None), tuple(dims)))
+                return out
+            if sig(bp) != sig(lp):
+                run.violation("bundled-interface-differs", {"bundle", "storage:%d" % size, "proc:" + bp.name.lower()}, {"bundle": size},
+                              f"default_str_storage={size}: bundled {bp.name} declares parameters {sig(bp)}, the library {sig(lp)}")
     cases = gen(run)
     i = 0
     keys = set()
